@@ -73,8 +73,8 @@ CHECKS["C05"] = dict(
    design="7/C05")
 CHECKS["C06"] = dict(
    category="translation_validation",
-   text="Proven validator: validC06_sound shows that acceptance implies n+1 phases whose DEFINED sequence is within 1e-8 (spectral norm) of the original at every point of the circle, every sin(phi'_k - phi_k) within 1e-7 of 0, and an even number of k with cos(phi'_k - phi_k) < 0 (the sign gauge). Each run does the round trip angseq(unitary_from_angles(phi)) for EVERY n = 1..32 with four interior patterns, special end phases and all sign patterns for small n; the literal coefficient-wise clause is re-checked in exact rationals on the library-built elements.",
-   note='''Trusted: Lean kernel + Mathlib, axioms propext/Classical.choice/Quot.sound, the compiled model driver executing the validator, the Python harness (float->Fraction, seed forcing by patching numpy.random.randint in the harness process, generators). ''' + "The coefficient-wise reading follows from the pointwise one by |c_k| <= sup|f| (Fourier), which is used as mathematics, not machine-checked; phase vectors are sampled within the stated family.",
+   text="Proven validator: validC06_sound shows that acceptance implies n+1 phases whose DEFINED sequence is within 1e-8 (spectral norm) of the original at every point of the circle, hence (validC06_coeff) coefficient-wise within 1e-8 for the true real coefficient vectors, every sin(phi'_k - phi_k) within 1e-7 of 0, and an even number of k with cos(phi'_k - phi_k) < 0 (the sign gauge). Each run does the round trip angseq(unitary_from_angles(phi)) for EVERY n = 1..32 with four interior patterns, special end phases and all sign patterns for small n; the literal coefficient-wise clause is re-checked in exact rationals on the library-built elements.",
+   note='''Trusted: Lean kernel + Mathlib, axioms propext/Classical.choice/Quot.sound, the compiled model driver executing the validator, the Python harness (float->Fraction, seed forcing by patching numpy.random.randint in the harness process, generators). ''' + "The coefficient-wise reading is machine-checked too (QSP/Properties/C06b.lean: coeff_le_sup by a finite DFT argument, validC06_coeff for the true real coefficients of both sequences); phase vectors are sampled within the stated family.",
    technique="Lean 4 proven validator for the round trip + exact coefficient comparison",
    design="7/C06")
 CHECKS["C07"] = dict(
